@@ -204,6 +204,10 @@ def run(ctx):
             check_add(ctx, y, rng.randint(1, 4), rng.randrange(2**31))
         if len(ctx.violations) >= 20:
             break
+    for _ in range(ctx.n(25, 400)):
+        if ctx.out_of_time():
+            break
+        interleaved_case(ctx, rng)
     # random_population: valid members, consecutive layers redundancy free
     for _ in range(ctx.n(10, 200)):
         n, k, size, seed = rng.randint(1, 5), rng.randint(1, 4), rng.randint(1, 6), rng.randrange(2**31)
@@ -220,6 +224,87 @@ def run(ctx):
                 ctx.violate("random_population does not terminate", {"n": n, "k": k, "size": size, "seed": seed}, repr(e), key="C20:population:nontermination")
             else:
                 ctx.violate("random_population raised", {"n": n, "k": k, "size": size, "seed": seed}, repr(e), key="C20:population:raises")
+
+
+def interleaved_case(ctx, rng):
+    """the constructors are called from worker threads (EVQETopologicalSearch submits add_random_layers to the executor): a call that is pre-empted
+    at its p-th generator use while another thread runs a whole call for the same qubit count must still return what it returns alone.  The
+    generator class observed here only counts uses and parks the thread (values unchanged)."""
+    import random as pyrandom
+    import threading
+
+    from queasars.minimum_eigensolvers.evqe.evolutionary_algorithm import individual as ind_mod
+    from queasars.minimum_eigensolvers.evqe.quantum_circuit import circuit_layer as layer_mod
+
+    n = rng.randint(2, 5)
+    x = EVQEIndividual.random_individual(n, rng.randint(1, 2), True, rng.randrange(2**31))
+    y = EVQEIndividual.random_individual(n, rng.randint(1, 2), True, rng.randrange(2**31))
+    ka, kb, sa, sb = rng.randint(1, 2), rng.randint(1, 2), rng.randrange(2**31), rng.randrange(2**31)
+    call_a = lambda: EVQEIndividual.add_random_layers(x, ka, True, sa)  # noqa: E731
+    call_b = lambda: EVQEIndividual.add_random_layers(y, kb, True, sb)  # noqa: E731
+    ref_a, ref_b = G.indiv_struct(call_a()), G.indiv_struct(call_b())
+    state = {"uses": 0, "park_at": None, "parked": threading.Event(), "go": threading.Event(), "thread": None}
+
+    class Parking(pyrandom.Random):
+        def _use(s):
+            if threading.current_thread() is state["thread"]:
+                if state["uses"] == state["park_at"]:
+                    state["parked"].set()
+                    state["go"].wait(10)
+                state["uses"] += 1
+
+        def choice(s, seq):
+            s._use()
+            return super().choice(seq)
+
+        def sample(s, population, k, **kw):
+            s._use()
+            return super().sample(population, k, **kw)
+
+        def uniform(s, a, b):
+            s._use()
+            return super().uniform(a, b)
+
+    saved = (layer_mod.Random, ind_mod.Random)
+    layer_mod.Random = ind_mod.Random = Parking
+    try:
+        state["thread"] = threading.current_thread()
+        state["park_at"] = None
+        call_a()
+        total = state["uses"]
+        inp = {"interleaved": True, "n": n, "a": {"indiv": G.indiv_json(x, G.Tokens()) if hasattr(G, "indiv_json") else None, "n_layers": ka, "seed": sa},
+               "b": {"n_layers": kb, "seed": sb}, "generator_uses_of_a": total}
+        ctx.case(inp, nontrivial=True, tags=["interleaved-threads", f"n:{n}"])
+        for p in sorted(set(rng.sample(range(max(total, 1)), min(total, 6)))) if total else []:
+            out = {}
+
+            def run_a():
+                try:
+                    out["a"] = G.indiv_struct(call_a())
+                except Exception as e:  # noqa: BLE001
+                    out["a"] = "exc:" + type(e).__name__ + ":" + str(e)[:80]
+
+            state.update(uses=0, park_at=p)
+            state["parked"].clear()
+            state["go"].clear()
+            t = threading.Thread(target=run_a, daemon=True)
+            state["thread"] = t
+            t.start()
+            state["parked"].wait(10)
+            try:
+                out["b"] = G.indiv_struct(call_b())
+            except Exception as e:  # noqa: BLE001
+                out["b"] = "exc:" + type(e).__name__ + ":" + str(e)[:80]
+            state["go"].set()
+            t.join(20)
+            if out.get("a") != ref_a or out.get("b") != ref_b:
+                ctx.violate("add_random_layers does not return the object it returns alone (invalid / redundant / different) when another thread runs a "
+                            "constructor call for the same qubit count in between", dict(inp, parked_at_use=p),
+                            {"a_differs": out.get("a") != ref_a, "b_differs": out.get("b") != ref_b, "a": str(out.get("a"))[:200], "b": str(out.get("b"))[:200]},
+                            key="C20:interleaved")
+                break
+    finally:
+        layer_mod.Random, ind_mod.Random = saved
 
 
 def replay(ctx, case):
